@@ -34,6 +34,16 @@ def check(ctx, R):
     T = terms(ctx)
     _sync(ctx, R, T)
     _async(ctx, R, T)
+    # "a whole device session over loopback gives the same results as over the in-memory transport": what a real socket adds are short writes
+    # and fragmented reads; the device side copes with them through the write-all loop (C15's rule) and the read-exactly primitive (C03's rule)
+    from .c15 import transport_write_sites, writeall_shape
+    for f_, n_, c_ in transport_write_sites(ctx):
+        ok_, why_, _info = writeall_shape(ctx, f_, n_, c_)
+        R.check(ok_, "RET", "%s|%s" % (f_.qualname, norm_stmt(n_.ast)), why_, why_, f_.loc(n_.ast))
+    from ..roles import all_roles
+    from .c03 import _read_exact
+    for roles in all_roles(ctx):
+        _read_exact(ctx, R, roles, T)
     from .c12 import _transport_close
     _transport_close(ctx, R, only=("transport.tcp_transport.TcpTransport", "transport.tcp_transport_async.TcpTransportAsync"))   # close is idempotent, a closed transport can connect again
     # a fresh transport is "not connected": its handle attributes exist and are None, so close() before any connect() is a no-op
